@@ -15,7 +15,7 @@ KINDS = ['plain', 'indexed', 'validating']
 
 # observers: (name, level, needs-arg)
 PARSER_OBS = ['getHTML', 'getFormattedHTML', 'getMiniHTML', 'asHTML', 'getRoot', 'getRootNodes', 'getAllNodes', 'body', 'head', 'forms',
-              'byTagName', 'byName', 'byClassName', 'byAttr', 'withAttrValues', 'byId', 'customFilter', 'firstCustomFilter',
+              'byTagName', 'byName', 'byClassName', 'byClassNames2', 'byClassNames3', 'byAttr', 'withAttrValues', 'byId', 'customFilter', 'firstCustomFilter',
               'find', 'filter', 'filterOr', 'xpath', 'contains', 'containsUid', 'pickle', 'formatterOverOutput', 'reprParser']
 ELEM_OBS = ['outerHTML', 'innerHTML', 'innerText', 'textContent', 'text', 'str', 'repr', 'getStartTag', 'getEndTag', 'toHTML',
             'getAttribute', 'hasAttribute', 'attrItems', 'attrKeys', 'attrValues', 'attrIter', 'attrLen', 'attrRepr', 'attrStr', 'attrIn', 'attrGet', 'attrSubscript', 'attrSubscriptMissing', 'attrNodeMap',
@@ -25,10 +25,10 @@ ELEM_OBS = ['outerHTML', 'innerHTML', 'innerText', 'textContent', 'text', 'str',
             'lastElementChild', 'nextSibling', 'previousSibling', 'nextElementSibling', 'previousElementSibling', 'peers', 'getPeers',
             'getPeersByAttr', 'getPeersByClassName', 'getPeersByName', 'parentNode', 'parentElement', 'ownerDocument',
             'getAllChildNodes', 'getAllNodes', 'getAllNodeUids', 'containsE', 'containsUidE', 'inE', 'isTagEqual', 'eq', 'ne', 'hash',
-            'cloneNode', 'copy', 'deepcopy', 'pickleE', 'ebyName', 'ebyClassName', 'ebyAttr', 'ewithAttrValues', 'ebyId', 'ecustomFilter',
+            'cloneNode', 'copy', 'deepcopy', 'pickleE', 'ebyName', 'ebyClassName', 'ebyClassNames2', 'ebyAttr', 'ewithAttrValues', 'ebyId', 'ecustomFilter',
             'efirstCustomFilter', 'efilter', 'exPath', 'tagBlocks', 'textBlocks', 'nodeName', 'tagName', 'uid', 'getUid', 'isSelfClosing',
             'getBlocksTags', 'getBlocksText', 'getParentElementCustomFilter', 'getTagName']
-COLL_OBS = ['call', 'cbyName', 'cbyClassName', 'cbyAttr', 'cwithAttrValues', 'cbyId', 'ccustomFilter', 'cfilter', 'cfilterAll', 'cxpath',
+COLL_OBS = ['call', 'cbyName', 'cbyClassName', 'cbyClassNames2', 'cbyAttr', 'cwithAttrValues', 'cbyId', 'ccustomFilter', 'cfilter', 'cfilterAll', 'cxpath',
             'ccontains', 'ccontainsUid', 'cplus', 'cminus', 'crepr', 'cgetAllNodes', 'cgetAllNodeUids']
 
 
@@ -129,6 +129,8 @@ class C16(core.Check):
                 return '{%s}' % ','.join('%s:%s' % (k, show(v)) for k, v in r.items())
             return type(r).__name__
         cls = c06.CLASSES[int(b * 4) % 4]
+        cls2 = cls + ' ' + c06.CLASSES[(int(b * 4) + 1 + int(b * 12) % 3) % 4]
+        cls3 = cls2 + '  ' + c06.CLASSES[(int(b * 4) + 2) % 4]
         nm = c06.NAMEVALS[int(b * 2) % 2]
         dv = c06.DATAVALS[int(b * 4) % 4]
         attr = ['id', 'class', 'style', 'name', 'data-x', 'hidden', 'checked', 'data-flag', 'nothere'][int(b * 9) % 9]
@@ -138,7 +140,8 @@ class C16(core.Check):
                 'asHTML': lambda: p.asHTML(), 'getRoot': lambda: p.getRoot(), 'getRootNodes': lambda: p.getRootNodes(),
                 'getAllNodes': lambda: p.getAllNodes(), 'body': lambda: p.body, 'head': lambda: p.head, 'forms': lambda: p.forms,
                 'byTagName': lambda: p.getElementsByTagName(e.tagName), 'byName': lambda: p.getElementsByName(nm),
-                'byClassName': lambda: p.getElementsByClassName(cls), 'byAttr': lambda: p.getElementsByAttr('data-x', dv),
+                'byClassName': lambda: p.getElementsByClassName(cls), 'byClassNames2': lambda: p.getElementsByClassName(cls2),
+                'byClassNames3': lambda: p.getElementsByClassName(cls3), 'byAttr': lambda: p.getElementsByAttr('data-x', dv),
                 'withAttrValues': lambda: p.getElementsWithAttrValues('data-x', {dv, '2'}), 'byId': lambda: p.getElementById(c06.IDS[int(b * 8) % 8]),
                 'customFilter': lambda: p.getElementsCustomFilter(lambda t: t.hasAttribute('id')),
                 'firstCustomFilter': lambda: p.getFirstElementCustomFilter(lambda t: t.hasClass(cls)),
@@ -180,7 +183,7 @@ class C16(core.Check):
                 'cloneNode': lambda: keep.append(e.cloneNode()) or keep[-1].getStartTag(), 'copy': lambda: keep.append(copy.copy(e)) or keep[-1].getStartTag(),
                 'deepcopy': lambda: keep.append(copy.deepcopy(e)) or keep[-1].getStartTag(),
                 'pickleE': lambda: len(pickle.dumps(e, protocol=int(b * 6) % 6)) > 0,
-                'ebyName': lambda: e.getElementsByName(nm), 'ebyClassName': lambda: e.getElementsByClassName(cls), 'ebyAttr': lambda: e.getElementsByAttr('data-x', dv),
+                'ebyName': lambda: e.getElementsByName(nm), 'ebyClassName': lambda: e.getElementsByClassName(cls), 'ebyClassNames2': lambda: e.getElementsByClassName(cls2), 'ebyAttr': lambda: e.getElementsByAttr('data-x', dv),
                 'ewithAttrValues': lambda: e.getElementsWithAttrValues('data-x', {dv}), 'ebyId': lambda: e.getElementById('a'),
                 'ecustomFilter': lambda: e.getElementsCustomFilter(lambda t: t.hasAttribute('name')),
                 'efirstCustomFilter': lambda: e.getFirstElementCustomFilter(lambda t: t.hasAttribute('name')),
@@ -197,7 +200,7 @@ class C16(core.Check):
             coll = p.getElementsByTagName(e.tagName)
             coll2 = p.getElementsByTagName(e2.tagName)
             f = {
-                'call': lambda: coll.all(), 'cbyName': lambda: coll.getElementsByName(nm), 'cbyClassName': lambda: coll.getElementsByClassName(cls),
+                'call': lambda: coll.all(), 'cbyName': lambda: coll.getElementsByName(nm), 'cbyClassName': lambda: coll.getElementsByClassName(cls), 'cbyClassNames2': lambda: coll.getElementsByClassName(cls2),
                 'cbyAttr': lambda: coll.getElementsByAttr('data-x', dv), 'cwithAttrValues': lambda: coll.getElementsWithAttrValues('data-x', {dv}),
                 'cbyId': lambda: coll.getElementById('a'), 'ccustomFilter': lambda: coll.getElementsCustomFilter(lambda t: t.hasAttribute('id')),
                 'cfilter': lambda: coll.filter(name=nm), 'cfilterAll': lambda: coll.filterAll(name=nm),
